@@ -456,18 +456,22 @@ func (r *run) newToken() string {
 func (r *run) lease() *failure {
 	// The multiplex pool replaces a lost connection asynchronously and offers no books to tell when it
 	// is done: right after a close one request may still fail (as in the proxy, which then retries).
-	// Capacity "becomes available again" is judged over up to three tries.
-	tries := 1
+	// Capacity "becomes available again" is judged over a few tries spread over ~0.6 s.
+	backoff := []time.Duration{0}
 	if r.h.Kind == pool.Mux && r.mode == pool.ModeAccept && !r.shut {
-		tries = 3
+		// measured: after a close the pool may hand out the dead connection for a few milliseconds
+		backoff = []time.Duration{0, time.Millisecond, 5 * time.Millisecond, 20 * time.Millisecond, 100 * time.Millisecond, r.d / 6}
 	}
-	for i := 1; ; i++ {
-		soft, f := r.leaseOnce(i == tries)
-		if f != nil || !soft || i == tries {
+	for i, pause := range backoff {
+		time.Sleep(pause)
+		last := i == len(backoff)-1
+		soft, f := r.leaseOnce(last)
+		if f != nil || !soft || last {
 			return f
 		}
 		r.class("mux-lease-retried")
 	}
+	return nil
 }
 
 // leaseOnce: soft reports a failed try on the multiplex pool that may be retried.
@@ -1164,11 +1168,11 @@ func (r *run) finish() *failure {
 	before := len(r.strs)
 	for i := 0; i < want; i++ {
 		r.step++
-		n := len(r.strs)
+		n := len(r.active())
 		if f := r.lease(); f != nil {
 			return f
 		}
-		if len(r.strs) == n || r.strs[n].state != sActive {
+		if len(r.active()) != n+1 {
 			if r.leaked() > 0 && r.known(sigF10) {
 				return nil
 			}
